@@ -21,7 +21,11 @@ def gen_consts(v):
              ('ACN_TWO_BYTES', 'ola::acn::IncomingStreamTransport::TWO_BYTES'),
              ('ACN_THREE_BYTES', 'ola::acn::IncomingStreamTransport::THREE_BYTES'),
              ('ACN_LFLAG_MASK', 'ola::acn::BaseInflator::LFLAG_MASK'),
-             ('ACN_LENGTH_MASK', 'ola::acn::BaseInflator::LENGTH_MASK')]
+             ('ACN_LENGTH_MASK', 'ola::acn::BaseInflator::LENGTH_MASK'),
+             ('RPC_VERSION_MASK', 'ola::rpc::RpcHeader::VERSION_MASK'),
+             ('RPC_SIZE_MASK', 'ola::rpc::RpcHeader::SIZE_MASK'),
+             ('RPC_PROTOCOL_VERSION', 'ola::rpc::RpcChannel::PROTOCOL_VERSION'),
+             ('RPC_MAX_BUFFER_SIZE', 'ola::rpc::RpcChannel::MAX_BUFFER_SIZE')]
     import re
     tmp = os.path.join(v.BUILD, ID, 'Gen.headers.v')
     os.makedirs(os.path.dirname(tmp), exist_ok=True)
@@ -29,7 +33,7 @@ def gen_consts(v):
         os.unlink(tmp)
     err = v.gen_consts_cpp(ID, ['plugins/usbpro/BaseUsbProWidget.h', 'plugins/usbpro/BaseRobeWidget.h',
                                 'plugins/openpixelcontrol/OPCConstants.h', 'libs/acn/TCPTransport.h',
-                                'libs/acn/BaseInflator.h'], ents, tmp)
+                                'libs/acn/BaseInflator.h', 'common/rpc/RpcChannel.h', 'common/rpc/RpcHeader.h'], ents, tmp)
     if err:
         return err
     # ACN_HEADER[] and INITIAL_SIZE are defined in TCPTransport.cpp only (internal linkage / out-of-class
@@ -209,6 +213,69 @@ def gen_acn(rng, big):
     marks.append(len(out))
     return out, marks
 
+def varint(n):
+    out = []
+    while True:
+        b = n & 0x7f
+        n >>= 7
+        if n:
+            out.append(b | 0x80)
+        else:
+            out.append(b)
+            return out
+
+def rpc_body(rng, ty, nbuf):
+    """serialised ola.rpc.RpcMessage {type, id, name, buffer}"""
+    b = [0x08, ty]
+    if rng.random() < 0.8:
+        b += [0x10] + varint(rng.choice([0, 1, 127, 128, 300, 0xffffffff, rng.randrange(1 << 32)]))
+    if rng.random() < 0.6:
+        name = [ord(c) for c in rng.choice(['Echo', 'GetDmx', 'X', ''])]
+        b += [0x1a, len(name)] + name
+    if nbuf is not None:
+        b += [0x22] + varint(nbuf) + rbytes(rng, nbuf, (0, 1, 0x10))
+    return b
+
+RPC_BAD = [[0x08], [0x10, 0x01], [0xff], [0x08, 0x0b], [0x0a, 0x05, 0x01], [0x08, 0x01, 0x22, 0x05, 0x00],
+           [0x0d, 1, 0, 0, 0]]
+
+def rpc_frame(body, version=1, size=None):
+    n = len(body) if size is None else size
+    h = ((version & 15) << 28) | (n & 0x0fffffff)
+    return [h & 255, (h >> 8) & 255, (h >> 16) & 255, (h >> 24) & 255] + list(body)
+
+def gen_rpc(rng, big):
+    out, marks, bad = [], [], []
+    nitems = rng.choice([1, 2, 2, 3, 4, 6, 10]) if not big else rng.choice([2, 12, 30])
+    for _ in range(nitems):
+        marks.append(len(out))
+        k = rng.random()
+        ty = rng.choice([1, 2, 3, 4, 5, 10, 1, 2, 10, 6, 7, 9])
+        nbuf = rng.choice([None, 0, 1, 5, 30, 200, 2030, 2040, 2047, 2048, 2049, 3000])
+        if big and rng.random() < 0.2:
+            nbuf = rng.choice([5000, 70000])
+        if k < 0.62:
+            out += rpc_frame(rpc_body(rng, ty, nbuf))
+        elif k < 0.74:     # empty frame: skipped, whatever the version bits say
+            out += rpc_frame([], version=rng.choice([1, 1, 1, 0, 2, 15]))
+        elif k < 0.79:     # wrong protocol version: the channel is closed
+            out += rpc_frame(rpc_body(rng, ty, 3), version=rng.choice([0, 2, 15]))
+        elif k < 0.83:     # announced size over the limit: closed
+            out += rpc_frame(rbytes(rng, rng.choice([0, 3, 10])), size=rng.choice([(1 << 20) + 1, 0x0fffffff, (1 << 21)]))
+        elif k < 0.88:     # a body the protobuf parser rejects: closed
+            b = rng.choice(RPC_BAD)
+            if b not in bad:
+                bad.append(b)
+            out += rpc_frame(b)
+        elif k < 0.94:     # truncated frame (then whatever follows is swallowed as its body)
+            f = rpc_frame(rpc_body(rng, ty, rng.choice([5, 30, 200])))
+            out += f[:rng.randrange(1, len(f))]
+        else:              # size field larger than the body present
+            body = rpc_body(rng, ty, 10)
+            out += rpc_frame(body, size=len(body) + rng.choice([1, 4, 50]))
+    marks.append(len(out))
+    return out, marks, bad
+
 def part_from_cuts(total, cuts):
     cuts = sorted({c for c in cuts if 0 < c < total})
     pts = [0] + cuts + [total]
@@ -280,6 +347,13 @@ def gen_cases(rng, tier):
             # thorough: long usbpro/robe/acn streams are also replayed one byte at a time
             strided = coarse or (big and (quick or proto == 'opc'))
             yield '%s %d %s %s' % (proto, cap, hx(st), '/'.join(partitions(rng, len(st), marks, strided, coarse)))
+    for i in range(300 if quick else 4000):
+        big = (i % 40 == 39)
+        st, marks, bad = gen_rpc(rng, big)
+        coarse = len(st) > 6000 and quick
+        cap = rng.choice([0, 0, 0, 0, 1, 2, 3, 7, 100])
+        yield 'rpc %d %s %s %s' % (cap, hx(st), '/'.join(partitions(rng, len(st), marks, coarse or (big and quick), coarse)),
+                                   ','.join(hx(b) for b in bad) if bad else '-')
     # syscall-level splitting of one Receive call
     for size in (0, 1, 2, 3, 6):
         for sc in ('-', '1', '1,1', '1,1,1', '2,2,2', '1,2,3', 'I', 'I,1', '1,I,1', 'A', 'E', '0', '1,0,1', '1,A,1',
@@ -293,6 +367,8 @@ def nontrivial(payload, md):
     or a Receive call that stored at least one byte after at least two read() calls"""
     if payload.startswith('recv'):
         return md.get('n', '0') not in ('0',) and payload.split(' ')[3].count(',') >= 1
+    if payload.startswith('rpc'):
+        return not md.get('m0', '0/').startswith('0/') and md.get('s0') != md.get('s1')
     return md.get('m0', '-') != '-' and 'm1' in md and md.get('s0') != md.get('s1')
 
 RULE = ('per protocol (usbpro, robe, opc, acn; acn: blocks of 0-6 PDUs with lengths 2..1000 and 4095/4096/5000/70000, 2- and 3-byte length fields, bad identifier, block length off by -1/+1/+5, length smaller than its field, truncation, noise): streams of 1-30 items drawn from valid frames with payload sizes at '
